@@ -32,7 +32,7 @@ class Prop(common.PropertyCheck):
                    'drop': rng.randrange(0, 4), 'blank': rng.random() < 0.7, 'mef_form': rng.choice(['float', 'int_array', 'int_list'])}
         for _ in range(self.budget(2500, 40000)):
             yield {'k': 'struct', 'n': rng.randrange(3, 9), 'kind': rng.choice(['convex', 'convex', 'noisy', 'random', 'concave']), 'seed': rng.randrange(1 << 30)}
-        for bad in ('two', 'one', 'len'):
+        for bad in ('two', 'one', 'len', 'len1_mef', 'len1_rfi', 'scalar_mef', 'scalar_rfi'):
             yield {'k': 'bad', 'what': bad}
 
     def run_impl(self, case):
@@ -44,6 +44,14 @@ class Prop(common.PropertyCheck):
                         FlowCal.mef.fit_beads_autofluorescence(np.array([10., 100.]), np.array([500., 5000.]))
                     elif case['what'] == 'one':
                         FlowCal.mef.fit_beads_autofluorescence(np.array([10.]), np.array([500.]))
+                    elif case['what'] == 'len1_mef':
+                        FlowCal.mef.fit_beads_autofluorescence(np.array([10., 100., 1000., 5000.]), np.array([500.]))
+                    elif case['what'] == 'len1_rfi':
+                        FlowCal.mef.fit_beads_autofluorescence(np.array([10.]), np.array([500., 5000., 6000., 7000.]))
+                    elif case['what'] == 'scalar_mef':
+                        FlowCal.mef.fit_beads_autofluorescence([10., 100., 1000.], [500.])
+                    elif case['what'] == 'scalar_rfi':
+                        FlowCal.mef.fit_beads_autofluorescence([10.], [500., 5000., 6000.])
                     else:
                         FlowCal.mef.fit_beads_autofluorescence(np.array([10., 100., 1000.]), np.array([500., 5000., 6000., 7000.]))
                     return {'raised': None}
@@ -85,13 +93,17 @@ class Prop(common.PropertyCheck):
                 # ladders as the documentation writes them: integers (array or plain list)
                 mef_arg = np.array(mef, dtype=np.int64) if case['mef_form'] == 'int_array' else [int(v) for v in mef]
                 rfi = rfi if case['mef_form'] == 'int_array' else [float(v) for v in rfi]
+            rfi_saved = np.array(rfi, dtype=float)
+            mef_saved = np.array(mef_arg, dtype=float)
             sc, bm, params, model_str, names = FlowCal.mef.fit_beads_autofluorescence(rfi, mef_arg)
-            rfi = np.asarray(rfi, dtype=float)
+            inputs_unchanged = bool(np.array_equal(np.asarray(rfi, dtype=float), rfi_saved) and np.array_equal(np.asarray(mef_arg, dtype=float), mef_saved))
+            rfi = rfi_saved
             p = [float(v) for v in params]
             grid = np.concatenate([np.linspace(rfi.min(), rfi.max(), 25), rfi])
             xs = np.concatenate([grid, -grid, [0.0]])
             out = {'p': [bits(v) for v in p], 'x': [bits(v) for v in xs], 'sc': [bits(v) for v in np.asarray(sc(xs), dtype=float)],
-                   'bm': [bits(v) for v in np.asarray(bm(grid), dtype=float)], 'ngrid': len(grid), 'names': list(names), 'str': model_str}
+                   'bm': [bits(v) for v in np.asarray(bm(grid), dtype=float)], 'ngrid': len(grid), 'names': list(names), 'str': model_str,
+                   'inputs_unchanged': inputs_unchanged}
             if k == 'recover':
                 span = np.exp(np.linspace(np.log(rfi.min()), np.log(rfi.max()), 60))
                 true = np.exp(case['b']) * span ** case['m']
@@ -109,6 +121,8 @@ class Prop(common.PropertyCheck):
             return 'fit raised: ' + impl['harness_err']
         if case['k'] == 'bad':
             return None if impl['raised'] == 'ValueError' else '%s not refused with ValueError: %s' % (case['what'], impl['raised'])
+        if impl.get('inputs_unchanged') is False:
+            return "the fit rewrote the caller's fl_rfi / fl_mef arrays (a later fit with the same arrays, or a slice of them, gets other data)"
         p = [unbits(b) for b in impl['p']]
         if not all(math.isfinite(v) for v in p):
             return 'non-finite parameters %s' % p
